@@ -1051,6 +1051,8 @@ decl(struct scope *s, struct func *f)
 		prior = scopegetdecl(s, name, false);
 		if (prior && prior->kind != kind)
 			error(&tok.loc, "'%s' redeclared with different kind", name);
+		if (fs && kind != DECLFUNC)
+			error(&tok.loc, "'%s' is declared with a function specifier but is not a function", name);
 		switch (kind) {
 		case DECLTYPE:
 			if (align)
